@@ -48,6 +48,8 @@ func vpErrIsLast() bool { return true }
 
 func vpSampleRecs(tag string, shape int) []*BED {
 	switch shape {
+	case 4:
+		return []*BED{vpRecord(tag+"a.", 4, 4200, 0, 0), vpRecord(tag+"b.", 4, 1, 0, 0)}
 	case 0:
 		return []*BED{vpRecord(tag+"a.", 3, 1, 0, 0)}
 	case 1:
@@ -121,4 +123,16 @@ func vpFixedPoint(rec any) (bool, bool) {
 	}
 	got := vpCollect(vpOneShot(w.b), 3)
 	return true, len(got) == 1 && !got[0].err && vpSameBED(got[0].b, b)
+}
+
+func vpOneRecord(i, extra int) []byte {
+	var out []byte
+	for k := 0; k <= extra; k++ {
+		out = append(out, 'c')
+	}
+	out = append(out, "\t1\t2\t"...)
+	for j := 0; j < 8; j++ {
+		out = append(out, "ACGT"[(i+j*j)%4])
+	}
+	return append(out, '\n')
 }
